@@ -74,14 +74,6 @@ theorem Inv.setMoved {p : Program} {s : St} (inv : Inv p s) {k : Key} {n : Node}
       · subst e; rw [n3k] at hx; cases hx
         exact ⟨dk, hpk, hkk, fun h => by rcases h with h | h; exact absurd h hkin; exact absurd h hkex⟩
       · rw [n3o x e] at hx; exact inv.kind x nx hx
-    · intro pa x nx hx hkx d o nd' hm hnd'
-      by_cases e : x = k
-      · subst e; rw [n3k] at hx; cases hx; exact absurd hkx hkp
-      · rw [n3o x e] at hx
-        obtain ⟨_, nd, hnd⟩ := inv.down x nx hx d o hm
-        obtain ⟨nd'', hnd'', hkd, _⟩ := depNode d nd hnd
-        rw [hnd'] at hnd''; cases hnd''
-        rw [hkd]; exact inv.pjFw pa x nx hx hkx d o nd hm hnd
     · intro x nx hx hkx d o nd' hm hnd'
       by_cases e : x = k
       · subst e; rw [n3k] at hx; cases hx; exact absurd hkx hkp
@@ -90,22 +82,22 @@ theorem Inv.setMoved {p : Program} {s : St} (inv : Inv p s) {k : Key} {n : Node}
         obtain ⟨nd'', hnd'', hkd, _⟩ := depNode d nd hnd
         rw [hnd'] at hnd''; cases hnd''
         rw [hkd]; exact inv.pjKinds x nx hx hkx d o nd hm hnd
-    · intro sp x nx dx ks hx hpx hkx hst
+    · intro x nx dx ks hx hpx hkx hst
       by_cases e : x = k
       · subst e; rw [n3k] at hx; cases hx; exact absurd hkx hkp
       · rw [n3o x e] at hx
-        refine inv.pjStat_transfer sp ?_ hx hpx hkx hst
+        refine inv.pjStat_transfer ?_ hx hpx hkx hst
         intro d nd hnd hkd
         by_cases ed : d = k
         · subst ed
           rw [hk] at hnd; cases hnd
-          rcases hkd with hkd | hkd
+          rcases hkd with hkd | ⟨hkd, _⟩
           · simp only [front, n3k, hk]
             show contrib n.kind d _ = contrib n.kind d _
             rw [hkd]; rfl
           · exact absurd hkd hkp
         · simp only [front, n3o d ed]
-    · intro sp x nx g o gn hx hm hg hkg
+    · intro x nx g o gn hx hm hg hkg hsg
       have hgk : g ≠ k := by
         intro e; subst e; rw [n3k] at hg; cases hg; exact hkp hkg
       rw [n3o g hgk] at hg
@@ -114,12 +106,12 @@ theorem Inv.setMoved {p : Program} {s : St} (inv : Inv p s) {k : Key} {n : Node}
         show tfcOf s g = gn.tfc
         simp [tfcOf, hg]
       · rw [n3o x e] at hx
-        exact inv.pjSeen sp x nx g o gn hx hm hg hkg
-    · intro sp g gn hg hkg hpg
+        exact inv.pjSeen x nx g o gn hx hm hg hkg hsg
+    · intro g gn hg hkg hsg hpg
       have hgk : g ≠ k := by
         intro e; subst e; rw [n3k] at hg; cases hg; exact hkp hkg
       rw [n3o g hgk] at hg
-      obtain ⟨c, o, hm, hpc⟩ := inv.pjCause sp g gn hg hkg hpg
+      obtain ⟨c, o, hm, hpc⟩ := inv.pjCause g gn hg hkg hsg hpg
       refine ⟨c, o, hm, ?_⟩
       by_cases ec : c = k
       · subst ec
